@@ -172,12 +172,23 @@ def prove_ge0(f: Aff, facts: Facts, depth: int = 3) -> bool:
 def find_counterexample(f: Aff, facts: Facts, symbols: Iterable[str], lo=-1, hi=9,
                         integer=True) -> Optional[Dict[str, int]]:
     """search small integer points satisfying the facts where f < 0"""
-    syms = sorted(set(symbols) | f.symbols() | set().union(*[g.symbols() for g in facts.ge0])
-                  if facts.ge0 else set(symbols) | f.symbols())
-    if len(syms) > 6:
+    # only the symbols connected to f through the facts matter (the other facts are
+    # satisfiable on their own)
+    rel = set(f.symbols())
+    changed = True
+    while changed:
+        changed = False
+        for g in facts.ge0:
+            gs = g.symbols()
+            if gs & rel and not gs <= rel:
+                rel |= gs
+                changed = True
+    use = [g for g in facts.ge0 if g.symbols() & rel]
+    syms = sorted(rel)
+    if len(syms) > 7:
         return None
     for vals in itertools.product(range(lo, hi + 1), repeat=len(syms)):
         env = dict(zip(syms, map(Fraction, vals)))
-        if all(g.eval(env) >= 0 for g in facts.ge0) and f.eval(env) < 0:
+        if all(g.eval(env) >= 0 for g in use) and f.eval(env) < 0:
             return {s: int(v) for s, v in env.items()}
     return None
